@@ -1580,12 +1580,10 @@ from pyvc.smt import str2obj  # noqa: E402
 
 ENC = z3.Function("str_encode", S_, Obj, Obj, Obj)  # x.encode(encoding, errors)
 ArrO = z3.ArraySort(I_, Obj)
-# dependency spec of the codecs (str.encode / bytes.decode), for the decoded view of a binary file:
-FILE_TEXT = z3.Function("file_text", ArrO, I_, Obj, S_)     # b"".join(items[0:n]).decode(encoding)
+# dependency spec of the codecs, for the decoded view of the bytes dump writes to a binary target:
+BTEXT = z3.Function("bytes_text", ArrO, I_, I_, Obj, S_)    # b"".join(items[lo:hi]).decode(encoding)
 DEC_ITEM = z3.Function("decode_item", Obj, Obj, S_)         # item.decode(encoding)
-STATELESS = z3.Function("stateless_codec", Obj, z3.BoolSort())
 STATEFUL_CODECS = ("utf-16", "utf-32", "utf-8-sig")
-STATELESS_CODECS = ("utf-8", "latin-1", "ascii", "utf-16-le")
 
 
 def RT(x, e, r):
@@ -1593,15 +1591,11 @@ def RT(x, e, r):
     return DEC_ITEM(ENC(x, e, r), e)
 
 
-def codec_facts_append(arr, n, w, e):
-    """decoding is a homomorphism on the outputs of a STATELESS codec (no BOM, no shift state):
-    (B + w).decode(e) == B.decode(e) + w.decode(e)"""
-    return z3.Implies(STATELESS(e), FILE_TEXT(z3.Store(arr, n, w), n + 1, e) == z3.Concat(FILE_TEXT(arr, n, e), DEC_ITEM(w, e)))
-
-
-def codec_facts_text(a, b, e, r):
-    """... and so is encoding: (a + b).encode(e, r) decodes to a.encode(e, r).decode(e) + b.encode(e, r).decode(e)"""
-    return z3.Implies(STATELESS(e), RT(z3.Concat(a, b), e, r) == z3.Concat(RT(a, e, r), RT(b, e, r)))
+def btext_ext(A, a, hiA, B, b, hiB, e):
+    """BTEXT depends only on the items of the slice (extensionality, part of its definition)"""
+    j = z3.Int(fresh_name("ext"))
+    same = z3.ForAll([j], z3.Implies(z3.And(0 <= j, j < hiA - a), z3.Select(A, a + j) == z3.Select(B, b + j)))
+    return z3.Implies(z3.And(hiA - a == hiB - b, same), BTEXT(A, a, hiA, e) == BTEXT(B, b, hiB, e))
 
 
 def seq_obj(seqv, j):
@@ -1609,12 +1603,24 @@ def seq_obj(seqv, j):
     return str2obj(x) if seqv.k == "str" else x
 
 
+class _IncEncFactory:
+    """model class: the value of codecs.getincrementalencoder(encoding)"""
+
+
+class _IncEnc:
+    """model class: an incremental encoder.  Ghost fields: log (every output so far, in order),
+    fed (the concatenation of every input so far), final (a final call was made)"""
+
+
 class Dump(C10VC):
     """dump(fp, encoding, errors) over the abstract item sequence S of the stream.
     File model: an object with abstract content (a list); write(x) appends x, writelines(it)
     appends the items of it in order, both may fail with OSError; open(path, mode) gives a new
     empty file with writelines or fails with OSError; x.encode(e, r) is an uninterpreted function
-    that may fail with UnicodeError."""
+    that may fail with UnicodeError.  Binary targets: the nested generator encoded() is executed from
+    the real source (its yields go to a ghost sequence, loop invariant on its for loop); the incremental
+    encoder is a dependency spec with ONE law, for every codec: the outputs up to and including the final
+    flush, concatenated, decode to what the encoding of the concatenation of the inputs decodes to."""
     target = "jinja2.environment:TemplateStream.dump"
     timeout_quick = 20000
 
@@ -1646,6 +1652,17 @@ class Dump(C10VC):
             return "stateful-encoding"
         return str(w.get("encoding"))
 
+    def run(self, tier, seed):
+        rs = super().run(tier, seed)
+        for r in rs:
+            # an implementation that does not use an incremental encoder is outside the codec law this contract
+            # assumes: without a natively failing input the honest verdict is "undecided", not "violated"
+            if r.status == "refuted" and r.witness is None and ".text#" in r.name and "structural predicate" in (r.detail or ""):
+                r.status = "unknown"
+                r.detail = ("no incremental encoder on this path: the assumed codec law does not relate the written bytes to the "
+                            "text, and no failing input was found on the real code")
+        return rs
+
     # ---- file model ------------------------------------------------------------------------
     def content(self, st, f):
         return st.get(st.get(f).fields["content"])
@@ -1674,8 +1691,6 @@ class Dump(C10VC):
             f = st.alloc(HObj(_FileWL, fields={"content": cont}))
             st.ghost["file"] = f
             st.ghost["file_arr0"] = arr0
-            if c.e_term is not None:
-                st.assume(FILE_TEXT(arr0, z3.IntVal(0), c.e_term) == EMPTY)  # b"".decode(e) == ""
             st.trace.append(Event("call", "open", args, kwargs, f, lineno=getattr(node, "lineno", None)))
             out.append((st, f))
             return out
@@ -1686,8 +1701,6 @@ class Dump(C10VC):
             f, x = args
             out = [fail(st, "write", args, node)]
             h = c.content(st, f)
-            if c.e_term is not None:
-                st.assume(codec_facts_append(h.arr, h.n, to_term(x, "obj"), c.e_term))
             h.arr = z3.Store(h.arr, h.n, to_term(x, "obj"))
             h.n = h.n + 1
             A.call_event(st, "write", args, kwargs, None, node)
@@ -1705,15 +1718,6 @@ class Dump(C10VC):
             j = z3.Int(fresh_name("j"))
             st.assume(z3.ForAll([j], z3.Implies(z3.And(0 <= j, j < h.n), z3.Select(na, j) == z3.Select(h.arr, j))))
             st.assume(z3.ForAll([j], z3.Implies(z3.And(0 <= j, j < seqv.n), z3.Select(na, h.n + j) == seq_obj(seqv, j))))
-            if c.e_term is not None:
-                # writelines(it) == for x in it: write(x); for the encoded pieces of S under a stateless codec the
-                # decoded file grows by what the whole text round-trips to (the loop form of this is proved by
-                # invariant in the [nowl] variants from the two homomorphism facts)
-                S = c.S
-                enc_items = z3.ForAll([j], z3.Implies(z3.And(0 <= j, j < seqv.n), seq_obj(seqv, j) == ENC(z3.Select(S.arr, j), c.e_term, c.r_term)))
-                st.assume(z3.Implies(z3.And(enc_items, seqv.n == S.n, STATELESS(c.e_term)),
-                                     FILE_TEXT(na, h.n + seqv.n, c.e_term)
-                                     == z3.Concat(FILE_TEXT(h.arr, h.n, c.e_term), RT(JOIN(S.arr, S.n), c.e_term, c.r_term))))
             h.arr, h.n = na, h.n + seqv.n
             A.call_event(st, "writelines", args, kwargs, None, node)
             return [(s1, r1), (st, None)]
@@ -1739,6 +1743,112 @@ class Dump(C10VC):
 
         I.specs["str.encode"] = encode
 
+        # -- codecs.getincrementalencoder(encoding)(errors) / .encode(x) / .encode("", final=True) ----------------
+        import codecs
+
+        def get_inc(I_, st, args, kwargs, node):
+            out = [fail(st, "codec", args, node, LookupError)]  # unknown codec name
+            out.append((st, st.alloc(HObj(_IncEncFactory, fields={"e": args[0]}))))
+            return out
+
+        I.specs[("fn", id(codecs.getincrementalencoder))] = get_inc
+
+        def inc_new(I_, st, args, kwargs, node):
+            fac = st.get(args[0])
+            r = args[1] if len(args) > 1 else kwargs.get("errors", "strict")
+            log = st.alloc(HList(arr=z3.Const(fresh_name("enclog"), ArrO), n=z3.IntVal(0), k="obj"))
+            enc = st.alloc(HObj(_IncEnc, fields={"e": fac.fields["e"], "r": r, "log": log, "fed": "", "final": False}))
+            st.ghost["enc"] = enc
+            return [(st, enc)]
+
+        I.specs["_IncEncFactory.__call__"] = inc_new
+
+        def inc_encode(I_, st, args, kwargs, node):
+            """IncrementalEncoder.encode(x, final=False).  CODEC LAW (assumed, every codec, stateful or not; cross-checked
+            natively by C10.spec.incremental_encoder): the concatenation of all outputs up to and including the final
+            call decodes to what the encoding of the concatenation of all inputs decodes to."""
+            enc, x = args[0], args[1]
+            final = args[2] if len(args) > 2 else kwargs.get("final", False)
+            if not isinstance(final, bool):
+                raise Unsupported("incremental encode with a symbolic `final`", node)
+            s1 = st.fork()
+            ex = Exc(UnicodeEncodeError, (), tag="encode", origin=getattr(node, "lineno", None))
+            h = st.get(enc)
+            if h.fields["final"]:
+                raise Unsupported("incremental encoder used after its final call", node)
+            w = fresh("encout", "obj")
+            L = st.get(h.fields["log"])
+            L.arr, L.n = z3.Store(L.arr, L.n, w.t), L.n + 1
+            fed = I_.concat_strs([h.fields["fed"], x])
+            h.fields["fed"] = fed
+            if final:
+                h.fields["final"] = True
+                e_t, r_t = to_term(h.fields["e"], "obj"), to_term(h.fields["r"], "obj")
+                st.assume(BTEXT(L.arr, z3.IntVal(0), L.n, e_t) == RT(to_term(fed, "str"), e_t, r_t))
+            return [(s1, Raised(ex)), (st, w)]
+
+        I.specs["_IncEnc.encode"] = inc_encode
+
+        # -- the nested generator encoded(): its yields are collected in a ghost sequence ----------------------------
+        def ev_yield(e, st, fr):
+            def f(s, v):
+                arr, n = s.ghost["out"]
+                s.ghost["out"] = (z3.Store(arr, n, to_term(v, "obj")), n + 1)
+                s.yields.append(v)
+                return [(s, None)]
+
+            return seq(I.ev(e.value, st, fr), f)
+
+        I.ev_Yield = ev_yield
+        orig_call_generator = I.call_generator
+
+        def call_generator(st, clo, fr, node):
+            st.ghost["out"] = (z3.Const(fresh_name("genout"), ArrO), z3.IntVal(0))
+            res = []
+            for s, v in orig_call_generator(st, clo, fr, node):
+                if not isinstance(v, Raised):
+                    arr, n = s.ghost["out"]
+                    v = s.alloc(HIter(SSeq(arr, n, "obj"), 0, tag="generator"))
+                res.append((s, v))
+            return res
+
+        I.call_generator = call_generator
+
+        def gen_inv(ctx):
+            """k pieces consumed: k outputs yielded, they are the encoder's outputs so far, the encoder was fed S[0:k]"""
+            st = ctx.st
+            h = st.get(st.ghost["enc"])
+            L = st.get(h.fields["log"])
+            oarr, on = st.ghost["out"]
+            j = z3.Int(fresh_name("gj"))
+            for idx in (ctx.k - 1, ctx.k):  # instances of the definition of JOIN around k
+                st.assume(z3.Implies(idx >= 0, z3.And(*join_step(c.S.arr, idx))))
+            if h.fields["final"] is not False:
+                return [z3.BoolVal(False)]
+            return [
+                on == ctx.k, L.n == ctx.k,
+                z3.ForAll([j], z3.Implies(z3.And(0 <= j, j < ctx.k), z3.Select(oarr, j) == z3.Select(L.arr, j))),
+                to_term(h.fields["fed"], "str") == JOIN(c.S.arr, ctx.k),
+            ]
+
+        def gen_heap(st, local):
+            h = st.get(st.ghost["enc"])
+            L = st.get(h.fields["log"])
+            L.arr, L.n = z3.Const(fresh_name("enclog"), ArrO), z3.Int(fresh_name("enclog_n"))
+            h.fields["fed"] = fresh("fed", "str")
+            st.ghost["out"] = (z3.Const(fresh_name("genout"), ArrO), z3.Int(fresh_name("genout_n")))
+
+        # the for loops of generators nested in dump (there is one: encoded)
+        import ast as _ast
+        from pyvc import extract as _extract
+        dnode, _m = _extract.function_ast(_extract.resolve(c.target))
+        for sub in _ast.walk(dnode):
+            if isinstance(sub, _ast.FunctionDef) and sub is not dnode:
+                stores = {x.id for lp in _ast.walk(sub) if isinstance(lp, (_ast.For, _ast.While))
+                          for x in _ast.walk(lp) if isinstance(x, _ast.Name) and isinstance(x.ctx, _ast.Store)}
+                I.loops[(f"TemplateStream.dump.<locals>.{sub.name}", 0)] = LoopSpec(
+                    gen_inv, havoc={nm: "obj" for nm in sorted(stores)}, heap=gen_heap, name="encode_loop")
+
         def inv(ctx):
             st = ctx.st
             f = st.ghost["file"]
@@ -1750,15 +1860,6 @@ class Dump(C10VC):
                 z3.ForAll([j], z3.Implies(z3.And(0 <= j, j < h0.n), z3.Select(h.arr, j) == z3.Select(h0.arr, j))),
                 z3.ForAll([j], z3.Implies(z3.And(0 <= j, j < ctx.k), z3.Select(h.arr, h0.n + j) == seq_obj(ctx.seq, j))),
             ]
-            if c.e_term is not None:
-                S, e, r = c.S, c.e_term, c.r_term
-                # instances (at the indices around k) of the definition of JOIN and of the codec homomorphism fact
-                for idx in (ctx.k - 1, ctx.k):
-                    st.assume(z3.Implies(idx >= 0, z3.And(*join_step(S.arr, idx))),
-                              z3.Implies(idx >= 0, codec_facts_text(JOIN(S.arr, idx), z3.Select(S.arr, idx), e, r)))
-                # under a stateless codec the file decodes to its prior text + what the text so far round-trips to
-                out.append(z3.Implies(STATELESS(e), FILE_TEXT(h.arr, h.n, e)
-                                      == z3.Concat(FILE_TEXT(h0.arr, h0.n, e), RT(JOIN(S.arr, ctx.k), e, r))))
             return out
 
         def heap(st, local):
@@ -1783,13 +1884,11 @@ class Dump(C10VC):
             self.e_term = str2obj(self.encoding.t)
         elif self.kind == "path":
             self.e_term = str2obj(z3.StringVal("utf-8"))
-            st.assume(STATELESS(self.e_term))  # codec table: utf-8 has neither BOM nor shift state
         else:
             self.e_term = None
         if self.e_term is not None:
             whole = JOIN(self.S.arr, self.S.n)
             st.assume(*join_base(self.S.arr))
-            st.assume(z3.Implies(STATELESS(self.e_term), RT(EMPTY, self.e_term, self.r_term) == EMPTY))
             # a strict encode that succeeds is lossless
             st.assume(z3.Implies(self.errors.t == z3.StringVal("strict"), RT(whole, self.e_term, self.r_term) == whole))
         if self.kind == "path":
@@ -1858,40 +1957,31 @@ class Dump(C10VC):
                    z3.ForAll([j], z3.Implies(z3.And(0 <= j, j < self.S.n), z3.Select(h.arr, n0 + j) == str2obj(z3.Select(self.S.arr, j))))]
         return z3.And(*fs)
 
-    def _text_goal(self, out):
+    def p_text(self, pre, out):
+        """THE STATEMENT: the bytes dump wrote, decoded with the encoding, are the concatenation of the pieces
+        (for a lossy error mode: what encoding the whole text keeps of it) - for EVERY codec"""
+        if out.raised or self.e_term is None:
+            return None
         tg = self._target(out)
-        if tg is None:
-            return False
+        enc = out.st.ghost.get("enc")
+        if tg is None or enc is None:
+            return False  # no incremental encoder on this path: nothing relates the written bytes to the text
         f, n0, arr0 = tg
         h = self.content(out.st, f)
+        L = out.st.get(out.st.get(enc).fields["log"])
         e, r = self.e_term, self.r_term
-        T, P = FILE_TEXT(h.arr, h.n, e), FILE_TEXT(arr0, n0, e)
+        T = BTEXT(h.arr, n0, h.n, e)
         whole = JOIN(self.S.arr, self.S.n)
-        return z3.And(T == z3.Concat(P, RT(whole, e, r)),
-                      z3.Implies(self.errors.t == z3.StringVal("strict"), T == z3.Concat(P, whole)))
-
-    def p_text(self, pre, out):
-        """THE STATEMENT: the dumped file, decoded with the encoding, is its prior text followed by the
-        concatenation of the pieces (for a lossy error mode: by what encoding the whole text keeps of it)"""
-        if out.raised or self.e_term is None:
-            return None
-        return self._text_goal(out)
-
-    def p_text_stateless(self, pre, out):
-        """... proved for every codec without BOM / shift state (utf-8, latin-1, ascii, utf-16-le, ...)"""
-        if out.raised or self.e_term is None:
-            return None
-        g = self._text_goal(out)
-        return g if g is False else z3.Implies(STATELESS(self.e_term), g)
+        goal = z3.And(T == RT(whole, e, r), z3.Implies(self.errors.t == z3.StringVal("strict"), T == whole))
+        return z3.Implies(btext_ext(h.arr, n0, h.n, L.arr, z3.IntVal(0), L.n, e), goal)
 
     def p_exceptions(self, pre, out):
         """dump adds no failure of its own"""
         if out.returned:
             return True
-        return out.value.tag in ("open", "write", "writelines", "encode")
+        return out.value.tag in ("open", "write", "writelines", "encode", "codec")
 
-    posts = [("open", p_open), ("close", p_close), ("content", p_content), ("text", p_text),
-             ("text_stateless_codec", p_text_stateless), ("exceptions", p_exceptions)]
+    posts = [("open", p_open), ("close", p_close), ("content", p_content), ("text", p_text), ("exceptions", p_exceptions)]
 
 
 DUMPS = [Dump(k, e) for k in ("path", "wl", "nowl") for e in (False, True)]
@@ -2127,12 +2217,64 @@ def bounded_dump_codecs(task, tier, seed):
     return rs
 
 
+def incremental_encoder_table(task, tier, seed):
+    """the codec law assumed of codecs.getincrementalencoder, on the real codecs: the concatenation of the
+    incremental outputs followed by the final flush DECODES TO THE SAME TEXT AS "".join(pieces).encode(enc, errors)
+    (the form the VC assumes).  Byte equality also holds for every listed codec except CPython's utf-7, whose
+    incremental encoder closes its base64 run at every call; the detail says which."""
+    import codecs
+    import random
+    t0 = time.time()
+    rnd = random.Random(seed)
+    extra = [("utf-7", "strict"), ("iso2022_jp", "replace"), ("utf-16-be", "strict"), ("cp1252", "replace")]
+    lists = list(DUMP_PIECES)
+    alphabet = ["", "a", "é", "日本", "<x>", "€", "\n", "𝄞"]
+    for _ in range(20 if tier == "quick" else 300):
+        lists.append([rnd.choice(alphabet) for _ in range(rnd.randrange(0, 9))])
+    rs = []
+    cases = 0
+    for enc, errors in DUMP_CODECS + extra:
+        bad = None
+        bytes_equal = True
+        for pieces in lists:
+            cases += 1
+            try:
+                want = "".join(pieces).encode(enc, errors)
+            except UnicodeError:
+                continue  # the text is not encodable in this mode: the law says nothing
+            e = codecs.getincrementalencoder(enc)(errors)
+            got = b"".join(e.encode(p) for p in pieces) + e.encode("", final=True)
+            bytes_equal = bytes_equal and got == want
+            try:
+                same_text = got.decode(enc) == want.decode(enc)
+            except UnicodeError:
+                same_text = False
+            if not same_text and bad is None:
+                bad = pieces
+        nm = f"C10.spec.incremental_encoder[{enc},{errors}]"
+        if bad is not None:
+            rs.append(Res(nm, "refuted", "native", time.time() - t0, f"codec law fails for pieces {bad!r}", "bounded",
+                          {"entry": "inc_law", "encoding": enc, "errors": errors, "pieces": bad}))
+        else:
+            rs.append(Res(nm, "bounded-ok", "native", time.time() - t0,
+                          f"{len(lists)} piece lists; bytes identical to the one-shot encoding: {bytes_equal}", "bounded"))
+    task.bound_text = f"{len(DUMP_CODECS) + len(extra)} codec/error-mode pairs x {len(lists)} piece lists (fixed + random)"
+    task.stats = {"cases": cases}
+    return rs
+
+
 def dump_codec_key(res):
     """known findings are keyed by the codec"""
     return str((res.witness or {}).get("encoding"))
 
 
 def replay_bounded(w):
+    if w.get("entry") == "inc_law":
+        import codecs
+        e = codecs.getincrementalencoder(w["encoding"])(w["errors"])
+        got = b"".join(e.encode(p) for p in w["pieces"]) + e.encode("", final=True)
+        want = "".join(w["pieces"]).encode(w["encoding"], w["errors"])
+        return got.decode(w["encoding"]) != want.decode(w["encoding"]), f"incremental {got!r} vs whole {want!r}"
     if w.get("entry") == "dump_codec":
         try:
             d = dump_codec_case(w["encoding"], w["errors"], w["pieces"], w["size"], w["target"])
@@ -2168,9 +2310,10 @@ TASKS = (
        FnTask("C10", "C10.spec.join_facts", join_facts_crosscheck, "bounded", replay_bounded),
        FnTask("C10", "C10.bounded.buffered", bounded_buffered, "bounded", replay_bounded),
        FnTask("C10", "C10.bounded.entrypoints", bounded_e2e, "bounded", replay_bounded),
-       FnTask("C10", "C10.bounded.dump_codecs", bounded_dump_codecs, "bounded", replay_bounded)]
+       FnTask("C10", "C10.bounded.dump_codecs", bounded_dump_codecs, "bounded", replay_bounded),
+       FnTask("C10", "C10.spec.incremental_encoder", incremental_encoder_table, "bounded", replay_bounded)]
 )
-TASKS[-1].finding_key = dump_codec_key
+TASKS[-2].finding_key = dump_codec_key
 
 META = {
     "level": "proof",
@@ -2185,11 +2328,11 @@ META = {
         "contiguous segments starting at 0, each the join of its segment, all but the last with exactly `size` non-empty pieces, the last "
         "with 1..size, the uncovered tail consists of empty strings, and the concatenation of the chunks is the concatenation of the "
         "input. dump: for text-mode targets the items are written in order after the prior content; for binary targets the "
-        "postcondition is about the DECODED file: it decodes to its prior text followed by the concatenation of the pieces (for a lossy "
-        "error mode, by what encoding the whole text keeps of it). This is proved (loop invariant on the write loop) for every codec "
-        "without BOM/shift state and for the utf-8 default of path targets; for an arbitrary codec it is REFUTED on the unchanged tree "
-        "(known finding: each piece is encoded separately, so utf-16/utf-32/utf-8-sig emit one BOM per piece; replayed natively, "
-        "proposed_fixes/c10_dump_incremental_encoder.diff). dump closes exactly the file it opened on every path. Paper lemma: when R is a function of the context (C29/C30) all five texts equal "
+        "postcondition is about the DECODED bytes dump wrote: they decode to the concatenation of the pieces (for a lossy error mode, "
+        "to what encoding the whole text keeps of it), discharged for EVERY codec, stateful or not: the nested generator encoded() "
+        "runs from the real source (ghost output sequence, loop invariant) under the incremental-encoder codec law. (Before /repo "
+        "fff2da6 each piece was encoded separately and this clause was refuted for utf-16/utf-32/utf-8-sig: see known_findings.d/c10.json, fixed.) "
+        "dump closes exactly the file it opened on every path. Paper lemma: when R is a function of the context (C29/C30) all five texts equal "
         "JOIN(R(ctx0)). Partial correctness only (termination of the buffering loop is not an obligation; the bounded stand-in runs the "
         "real generator). Bounded stand-ins on the real code are reported separately."),
     "assumptions": [
@@ -2197,7 +2340,8 @@ META = {
         "call shapes of render/generate/stream: 0..1 positional and 0..2 keyword arguments with symbolic values (the code passes *args/**kwargs through verbatim)",
         "the Context returned by new_context belongs to the environment passed to it (contract of runtime.new_context / Context.__init__)",
         "file model of dump: write appends, writelines appends in order (writelines(it) == for x in it: write(x)), both may raise OSError; open gives a new empty file with writelines or raises OSError; str.encode is an uninterpreted function that may raise UnicodeError (raised eagerly in the model)",
-        "codec dependency spec: for a stateless codec (no BOM, no shift state; utf-8 is one) decoding distributes over the concatenation of encoded items and x.encode(e, r).decode(e) distributes over string concatenation; a strict encode that succeeds is lossless. No such fact is assumed for other codecs.",
+        "codec law (every codec): for enc = codecs.getincrementalencoder(e)(r), the concatenation of enc.encode(x_0) ... enc.encode(x_n-1), enc.encode('', final=True) decodes to the same text as ''.join(x).encode(e, r) (byte-identical too, except CPython's utf-7); a strict encode that succeeds is lossless; getincrementalencoder may raise LookupError, encode may raise UnicodeEncodeError",
+        "for file-object targets the decoded-text clause is about the bytes dump wrote (what the object held before is only required to be untouched)",
         "generate()/render() in async mode belong to C09.entry (render's delegation to asyncio.run(render_async(...)) is checked here; generate is checked in sync mode)",
         "partial correctness: termination is not proved",
     ],
@@ -2207,5 +2351,6 @@ META = {
         "dependency spec: functools.partial(f, a)() == f(a)", "dependency spec: next()/StopIteration on iterators, list(iterator), list.append/clear",
         "dependency spec: dict(*args, **kwargs) as an opaque function of its arguments",
         "dependency spec: markupsafe.Markup(s) is a Markup string with the text of s",
+        "dependency spec: codecs.getincrementalencoder / IncrementalEncoder.encode with the codec law above (cross-checked natively on 14 codec/error-mode pairs: C10.spec.incremental_encoder)",
     ],
 }
